@@ -148,7 +148,12 @@ func (c *WebRTCPeer) connect(config *webrtc.Configuration, broker *BrokerChannel
 	// TODO: When go-webrtc is more stable, it's possible that a new
 	// PeerConnection won't need to be re-prepared each time.
 	err := c.preparePeerConnection(config)
-	localDescription := c.pc.LocalDescription()
+	// c.pc is nil when the configuration (e.g. an invalid ICE server URL) was
+	// rejected: look at err before touching it.
+	var localDescription *webrtc.SessionDescription
+	if err == nil {
+		localDescription = c.pc.LocalDescription()
+	}
 	c.eventsLogger.OnNewSnowflakeEvent(event.EventOnOfferCreated{
 		WebRTCLocalDescription: localDescription,
 		Error:                  err,
